@@ -47,6 +47,24 @@ pub fn run(a: &Args) {
             }
         }
     }
+    // names that differ from another name of the message only in letter case: flip the case of every ASCII letter
+    // of every base message in turn (names are compared byte-wise; whatever the parser showed must come back)
+    for (i, (cls, msg)) in bases.iter().enumerate() {
+        if msg.len() > 150 || (!thorough && i % 2 != 0) {
+            continue;
+        }
+        for pos in 12..msg.len() {
+            if msg[pos].is_ascii_alphabetic() {
+                let mut m = msg.clone();
+                m[pos] ^= 0x20;
+                if let Some(e) = reparse_event(&format!("{cls} case-flip"), &m) {
+                    st.case(&m, true);
+                    accepted += 1;
+                    out.emit(e);
+                }
+            }
+        }
+    }
     for _ in 0..(if thorough { 40000 } else { 4000 }) {
         let (cls, base) = &bases[rng.gen_range(0..bases.len())];
         let mut m = base.clone();
